@@ -33,6 +33,7 @@ const W_DROP_FLUSHED_DATA: u64 = 8;
 const W_BROKEN_PIPE: u64 = 16;
 const W_CLOSED_SEEN: u64 = 32;
 const W_FAULT_TAKEN: u64 = 64;
+const W_SECOND_FAULT: u64 = 512;
 
 #[derive(Clone, Copy, Debug)]
 struct Cfg {
@@ -42,6 +43,8 @@ struct Cfg {
     /// both endpoints are client-role WebSockets: the source of an endpoint that has taken the peer's Close only ends
     /// when the peer tears the transport down (drops its endpoint)
     linger: bool,
+    /// two causes in one execution: after a local drop (orderly teardown in progress) the transport may still fail
+    double: bool,
 }
 
 fn build(cfg: &Cfg) -> World {
@@ -114,6 +117,7 @@ fn exec(cfg: &Cfg, render: bool) -> RunOutput {
     let mut fps = Vec::new();
     let mut wit = 0u64;
     let mut fault: Option<(Fault, u64)> = None;
+    let mut second: Option<Fault> = None;
     let mut horizon = false;
     let mut wire_at_fault = [0usize; 2];
     let mut at_fault_written: BTreeMap<(u8, u8), (Vec<u8>, bool)> = BTreeMap::new();
@@ -129,12 +133,28 @@ fn exec(cfg: &Cfg, render: bool) -> RunOutput {
         let mut kinds: Vec<Cost> = vec![Cost::Sched; en.len().max(1)];
         if fault.is_none() {
             kinds.extend_from_slice(&fault_kinds);
+        } else if cfg.double && second.is_none() && matches!(fault, Some((Fault::DropMuxA | Fault::DropMuxB, _))) {
+            // the three transport failures (FAULTS[0..3]) or the drop of the OTHER side's multiplexor while the orderly
+            // teardown is under way
+            kinds.extend_from_slice(&fault_kinds[..4]);
         }
-        if en.is_empty() && fault.is_some() {
+        if en.is_empty() && fault.is_some() && (kinds.len() == en.len().max(1)) {
             break;
         }
         let c = choose(&kinds);
         let nsched = en.len().max(1);
+        if c >= nsched && fault.is_some() {
+            let f = match (c - nsched, fault) {
+                (3, Some((Fault::DropMuxA, _))) => Fault::DropMuxB,
+                (3, _) => Fault::DropMuxA,
+                (i, _) => FAULTS[i],
+            };
+            apply_fault(&mut w, &mut mon, f);
+            second = Some(f);
+            wit |= W_SECOND_FAULT;
+            w.sim.log.push(Step::Extra(f as usize));
+            continue;
+        }
         if c >= nsched {
             let f = FAULTS[c - nsched];
             // what was pending at the moment of the fault (vacuity witnesses)
@@ -286,7 +306,7 @@ fn exec(cfg: &Cfg, render: bool) -> RunOutput {
         }
         // every reader that finished saw end-of-stream (not an error), every stream end is done
         // (3) flush clause: local drop over a healthy transport
-        if let Fault::DropMuxA | Fault::DropMuxB = f {
+        if let (Fault::DropMuxA | Fault::DropMuxB, None) = (f, second) {
             let x = if f == Fault::DropMuxA { 0 } else { 1 };
             // Close is the last thing side x put on the wire
             let l = w.sim.link.lock();
@@ -505,24 +525,27 @@ pub fn run(args: &Args) -> Report {
     let mut cases = Vec::new();
     let cfgs: Vec<Cfg> = if thorough {
         vec![
-            Cfg { rwnd: (2, 2), cap: 0, variant: 0, linger: false },
-            Cfg { rwnd: (2, 2), cap: 0, variant: 1, linger: false },
-            Cfg { rwnd: (1, 3), cap: 0, variant: 1, linger: false },
-            Cfg { rwnd: (2, 1), cap: 1, variant: 0, linger: false },
-            Cfg { rwnd: (3, 2), cap: 2, variant: 1, linger: false },
-            Cfg { rwnd: (2, 2), cap: 0, variant: 2, linger: false },
-            Cfg { rwnd: (1, 1), cap: 1, variant: 2, linger: false },
-            Cfg { rwnd: (2, 2), cap: 0, variant: 2, linger: true },
-            Cfg { rwnd: (2, 1), cap: 1, variant: 0, linger: true },
+            Cfg { rwnd: (2, 2), cap: 0, variant: 0, linger: false, double: false },
+            Cfg { rwnd: (2, 2), cap: 0, variant: 1, linger: false, double: false },
+            Cfg { rwnd: (1, 3), cap: 0, variant: 1, linger: false, double: false },
+            Cfg { rwnd: (2, 1), cap: 1, variant: 0, linger: false, double: false },
+            Cfg { rwnd: (3, 2), cap: 2, variant: 1, linger: false, double: false },
+            Cfg { rwnd: (2, 2), cap: 0, variant: 2, linger: false, double: false },
+            Cfg { rwnd: (1, 1), cap: 1, variant: 2, linger: false, double: false },
+            Cfg { rwnd: (2, 2), cap: 0, variant: 2, linger: true, double: false },
+            Cfg { rwnd: (2, 1), cap: 1, variant: 0, linger: true, double: false },
+            Cfg { rwnd: (2, 2), cap: 0, variant: 2, linger: false, double: true },
+            Cfg { rwnd: (2, 1), cap: 1, variant: 0, linger: false, double: true },
+            Cfg { rwnd: (2, 2), cap: 0, variant: 2, linger: true, double: true },
         ]
     } else {
-        vec![Cfg { rwnd: (2, 2), cap: 0, variant: 2, linger: false }, Cfg { rwnd: (2, 1), cap: 1, variant: 0, linger: false }, Cfg { rwnd: (2, 2), cap: 0, variant: 2, linger: true }]
+        vec![Cfg { rwnd: (2, 2), cap: 0, variant: 2, linger: false, double: false }, Cfg { rwnd: (2, 1), cap: 1, variant: 0, linger: false, double: false }, Cfg { rwnd: (2, 2), cap: 0, variant: 2, linger: true, double: false }, Cfg { rwnd: (2, 2), cap: 0, variant: 2, linger: false, double: true }, Cfg { rwnd: (2, 1), cap: 1, variant: 0, linger: false, double: true }]
     };
     for cfg in cfgs {
         // quick tier: the lean scenario gets every fault at every point of every <= 1-deviation schedule, the busy one
         // every fault at every point of the canonical schedule; the thorough tier explores all of them deeper
-        let max_k = if !thorough && cfg.variant != 2 { 0 } else { u32::MAX };
-        cases.push(Case { try_unbounded: false, max_k, label: format!("{} scenario rwnd={:?} cap={} variant={}{}", if cfg.variant == 2 { "lean" } else { "busy" }, cfg.rwnd, cfg.cap, cfg.variant, if cfg.linger { " client-role WebSockets (source outlives the peer's Close)" } else { "" }), exec: Box::new(move |r| exec(&cfg, r)) });
+        let max_k = if !thorough && (cfg.variant != 2 || cfg.double) { 0 } else if cfg.double { 1 } else { u32::MAX };
+        cases.push(Case { try_unbounded: false, max_k, label: format!("{} scenario rwnd={:?} cap={} variant={}{}{}", if cfg.variant == 2 { "lean" } else { "busy" }, cfg.rwnd, cfg.cap, cfg.variant, if cfg.linger { " client-role WebSockets (source outlives the peer's Close)" } else { "" }, if cfg.double { " + a transport failure at any point after a local drop (two faults)" } else { "" }), exec: Box::new(move |r| exec(&cfg, r)) });
     }
     for n in if thorough { vec![0usize, 3, 127, 129, 140, 300] } else { vec![3usize, 140] } {
         for how in 0..4u8 {
@@ -532,13 +555,14 @@ pub fn run(args: &Args) -> Report {
     let plan = Plan {
         ks: if thorough { vec![0, 1, 2] } else { vec![0, 1] },
         env: 0,
-        fault: 1,
+        fault: 2,
         total_wall: Duration::from_secs(if thorough { 1800 } else { 55 }),
         max_execs_per_case: 20_000_000,
-        required_witnesses: W_LATE_OPS | W_BUDGET_YIELD | W_FAULT_TAKEN | W_FAULT_WITH_BLOCKED_WRITER | W_FAULT_WITH_PENDING_OPEN | W_FAULT_WITH_PENDING_BIND | W_DROP_FLUSHED_DATA | W_BROKEN_PIPE | W_CLOSED_SEEN,
+        required_witnesses: W_SECOND_FAULT | W_LATE_OPS | W_BUDGET_YIELD | W_FAULT_TAKEN | W_FAULT_WITH_BLOCKED_WRITER | W_FAULT_WITH_PENDING_OPEN | W_FAULT_WITH_PENDING_BIND | W_DROP_FLUSHED_DATA | W_BROKEN_PIPE | W_CLOSED_SEEN,
         adaptive: thorough,
         witness_names: &[
             ("fault_injected", W_FAULT_TAKEN),
+            ("transport_failure_during_orderly_teardown", W_SECOND_FAULT),
             ("fault_while_writer_blocked_on_credit", W_FAULT_WITH_BLOCKED_WRITER),
             ("fault_while_open_request_pending", W_FAULT_WITH_PENDING_OPEN),
             ("fault_while_bind_request_pending", W_FAULT_WITH_PENDING_BIND),
